@@ -145,6 +145,13 @@ func PlayMode(beh M, rng *rand.Rand, proj *Projection, mode int) ([]M, error) {
 				gluedBytes = append(gluedBytes, b...)
 				gluedEvs = append(gluedEvs, mem.Ev{"k": "send", "m": m})
 				continue
+			} else if k := I(st, "cut"); k > 0 && len(b) > 1 && len(gluedBytes) == 0 {
+				// the message reaches the server in two pieces, the second one only after the server has taken in
+				// the first and waits for the rest
+				k = 1 + (k-1)%(len(b)-1)
+				conn.Send(b[:k])
+				conn.WaitQuiet(WaitTimeout) //nolint
+				conn.Send(b[k:], mem.Ev{"k": "send", "m": m}) // only now has the message been sent
 			} else {
 				conn.Send(append(gluedBytes, b...), append(gluedEvs, mem.Ev{"k": "send", "m": m})...)
 				gluedBytes, gluedEvs = nil, nil
